@@ -1,0 +1,63 @@
+//go:build verif
+
+// Contracts for package sm4, read by the verification framework in /verif.
+// Comments only; compiled only under the build tag "verif".
+
+package sm4
+
+//@ func (*sm4.sm4CipherAsm).Encrypt
+//@ mode bv
+//@ strict_len dst, src
+//@ panics_if len(dst) < 16 || len(src) < 16
+//@ assigns dst[0:16]
+
+//@ func (*sm4.sm4CipherAsm).Decrypt
+//@ mode bv
+//@ strict_len dst, src
+//@ panics_if len(dst) < 16 || len(src) < 16
+//@ assigns dst[0:16]
+
+//@ func (*sm4.sm4Cipher).Encrypt
+//@ mode bv
+//@ strict_len dst, src
+//@ panics_if len(dst) < 16 || len(src) < 16
+//@ assigns dst[0:16]
+
+//@ func (*sm4.sm4Cipher).Decrypt
+//@ mode bv
+//@ strict_len dst, src
+//@ panics_if len(dst) < 16 || len(src) < 16
+//@ assigns dst[0:16]
+
+//@ func sm4.ensureCapacity
+//@ mode bv
+//@ requires asked: 0 <= asked && asked <= 1099511627776
+//@ case room: cap(array) - len(array) >= asked
+//@ case grow: cap(array) - len(array) < asked
+//@ ensures len: len(head) == len(array) + asked
+//@ ensures prefix: forall(i, 0, len(array), head[i] == old(array[i]))
+//@ returns_if cap(array) - len(array) >= asked : array[0:len(array)+asked]
+//@ assigns nothing
+
+//@ func (*sm4.sm4GcmAsm).Seal
+//@ mode bv
+//@ requires wf: len(g.roundKeys) == 32 && 12 <= g.tagSize && g.tagSize <= 16
+//@ panics_if len(nonce) != g.nonceSize || len(plaintext) > 68719476704
+//@ case room: cap(dst) - len(dst) >= len(plaintext) + g.tagSize
+//@ case grow: cap(dst) - len(dst) < len(plaintext) + g.tagSize
+//@ ensures len: len(result) == len(dst) + len(plaintext) + g.tagSize
+//@ ensures prefix: forall(i, 0, len(dst), result[i] == old(dst[i]))
+//@ returns_if cap(dst) - len(dst) >= len(plaintext) + g.tagSize : dst[0:len(dst)+len(plaintext)+g.tagSize]
+//@ assigns dst[len(dst):cap(dst)]
+
+//@ func (*sm4.sm4GcmAsm).Open
+//@ mode bv
+//@ requires wf: len(g.roundKeys) == 32 && g.tagSize <= 16
+//@ panics_if len(nonce) != g.nonceSize || g.tagSize < 12
+//@ case room: cap(dst) - len(dst) >= len(ciphertext) - g.tagSize
+//@ case grow: cap(dst) - len(dst) < len(ciphertext) - g.tagSize
+//@ ensures short: len(ciphertext) < g.tagSize ==> result0 == nil && nonnil(result1)
+//@ ensures ok: !nonnil(result1) ==> len(result0) == len(dst) + len(ciphertext) - g.tagSize
+//@ ensures okprefix: !nonnil(result1) ==> forall(i, 0, len(dst), result0[i] == old(dst[i]))
+//@ ensures fail: nonnil(result1) ==> result0 == nil
+//@ assigns dst[len(dst):cap(dst)]
